@@ -17,6 +17,43 @@ NOT_DECIDED = 'nothing of the controller beyond cycle-exact counting semantics o
 import math
 
 
+def _mirror(ir, fsm, name):
+    """(state, '') when `name` is, or is an unconditional copy of, a register that equals `fsm.ongoing(state)` in every
+    cycle; (None, reason) otherwise."""
+    ds = ir.drivers(name, exact=True)
+    reg = name
+    if len(ds) == 1 and ds[0].domain == 'comb' and not ds[0].guard and ds[0].state is None and ds[0].rhs.op == 'sig':
+        reg = ds[0].rhs.canon()
+        ds = ir.drivers(reg, exact=True)
+    if not ds or any(a.domain != fsm.domain or a.rhs.op != 'const' or a.state is None for a in ds):
+        return None, '%s is not a register written with constants inside the FSM' % reg
+    with_edge = {}
+    for a in ds:
+        es = [e for e in fsm.edges if e.state == a.state and q.atoms(e) == q.atoms(a)]
+        if len(es) != 1:
+            return None, 'the write %s does not accompany exactly one transition' % q.fmt(a)
+        with_edge[id(es[0])] = bool(a.rhs.val)
+    on = {e.dst for e in fsm.edges if with_edge.get(id(e)) is True}
+    if len(on) != 1:
+        return None, '%s is set on transitions into %s' % (reg, sorted(on))
+    st = on.pop()
+    for e in fsm.edges:
+        src = e.state[1] if isinstance(e.state, tuple) else e.src
+        if e.dst == st and src != st and with_edge.get(id(e)) is not True:
+            return None, 'the transition %s enters %s without setting %s' % (q.fmt(e), st, reg)
+        if src == st and e.dst != st and with_edge.get(id(e)) is not False:
+            return None, 'the transition %s leaves %s without clearing %s' % (q.fmt(e), st, reg)
+        if with_edge.get(id(e)) is True and e.dst != st or with_edge.get(id(e)) is False and e.dst == st:
+            return None, 'the transition %s writes %s against the state it enters' % (q.fmt(e), reg)
+    si = ir.signals.get(reg)
+    init = (si.init or 0) if si is not None else 0
+    if bool(init) != (fsm.init == st):
+        return None, '%s starts at %d while the FSM starts in %s (it mirrors %s)' % (reg, init, fsm.init, st)
+    if si is not None and si.reset_less:
+        return None, '%s is not reset with the FSM' % reg
+    return st, ''
+
+
 def check(ctx, f, tr, ts, por=True):
     tag = 'f%g,r%g,s%g%s' % (f, tr, ts, '' if por else ',nopor')
     ir = ctx.ir('PHYResetController', 'architecture.car', clock_frequency=f, reset_length=tr, stop_length=ts, power_on_reset=por)
@@ -28,6 +65,13 @@ def check(ctx, f, tr, ts, por=True):
     # function of `fsm.ongoing(...)` outside (q.flag_states gives one answer for both)
     ctx.need(pr and ps, 'phy_reset / phy_stop drivers')
     fr, fs_ = q.flag_states(ir, fsm, 'self.phy_reset'), q.flag_states(ir, fsm, 'self.phy_stop')
+    why_not = ''
+    if all(v == 'cond' for v in fr.values()):
+        # the output may be a register that mirrors one state: set on every edge into it, cleared on every edge out of it,
+        # written nowhere else, and starting as the FSM starts
+        mir, why_not = _mirror(ir, fsm, 'self.phy_reset')
+        if mir is not None:
+            fr = {s: s == mir for s in fsm.states}
     r_on = [s for s in fsm.states if fr[s] is True]
     s_off = [s for s in fsm.states if fs_[s] is False]
     ok = len(r_on) == 1 and len(s_off) == 1 and all(v is False for s, v in fr.items() if s not in r_on) and \
@@ -35,7 +79,7 @@ def check(ctx, f, tr, ts, por=True):
     rst = r_on[0] if r_on else None
     idle = s_off[0] if s_off else None
     ctx.ob('C54.outputs', 'PHYResetController.phy_stop[%s]' % tag, ok and idle != rst, ps[0].loc,
-           'phy_reset = in reset state, phy_stop = not idle: phy_reset %s, phy_stop %s' % (fr, fs_))
+           'phy_reset = in reset state, phy_stop = not idle: phy_reset %s, phy_stop %s%s' % (fr, fs_, ('; ' + why_not) if why_not else ''))
     ctx.need(ok, 'idle state')
     others = [s for s in fsm.states if s not in (idle, rst)]
     ctx.need(len(others) == 1, 'exactly one stop-deferral state')
@@ -103,7 +147,7 @@ def run(ctx):
     check(ctx, 60e6, 2e-6, 2e-6)
     check(ctx, 60e6, 2e-6, 10e-6)
     check(ctx, 60e6, 10e-6, 2e-6)
+    check(ctx, 60e6, 2e-6, 2e-6, por=False)
     if ctx.tier == 'thorough':
-        check(ctx, 60e6, 2e-6, 2e-6, por=False)
         check(ctx, 48e6, 1e-6, 1e-3)
         check(ctx, 100e6, 5e-3, 3e-7)
